@@ -29,7 +29,10 @@ TRUSTED_BASE = ["json (stdlib)"]
 def json_leaf(rng, retypable=True):
     m = rng.randrange(10)
     if m < 5:
-        s = rng.choice([gen.dom_string(rng), gen.word(rng), "two words", "it's", 'say "x" now', "back\\slash", "äö 日本", ""])
+        s = rng.choice([gen.dom_string(rng), gen.word(rng), "two words", "it's", 'say "x" now', "back\\slash", "äö 日本", "",
+                        # an odd number of embedded quotes, comment-like and URL-like content: all plain text inside a JSON string
+                        '27" display', 'pipe 3/4" /* nominal */ steel', "src/*/test/*/conftest.py", "a // b", "http://x.org/y", "/* remark */",
+                        "tab\there", "line\nbreak", "\u2028sep"])
         if retypable and rng.random() < 0.3:
             s = rng.choice(["1", "2.5", "true", "NULL", "off", "1e5", "-3"])
         return s
